@@ -59,12 +59,13 @@ Sys0(id) ==
 
 NoLaws == {}
 Failed(L) == {n \in DOMAIN L : ~L[n]}
-Entry(op, arg, s, bad) == [op |-> op, arg |-> arg, cp |-> Spectra(s, KS), bad |-> bad]
+Entry(op, arg, cp, bad) == [op |-> op, arg |-> arg, cp |-> cp, bad |-> bad]
 Init == \E id \in SYSTEMS : /\ sys = Sys0(id) /\ pairs = <<>>
-                            /\ hist = <<Entry("init", id, Sys0(id), NoLaws)>>
+                            /\ hist = <<Entry("init", id, Spectra(Sys0(id), KS), NoLaws)>>
 Room == Len(hist) <= MAXLEN
 Bool(b) == IF b THEN "T" ELSE "F"
-Step(op, arg, s, p, bad) == sys' = s /\ pairs' = p /\ hist' = Append(hist, Entry(op, arg, s, bad))
+(* cp: the spectra of the new system, computed once per step (\E cp \in {Spectra(new, KS)}) *)
+Step(op, arg, s, p, cp, bad) == sys' = s /\ pairs' = p /\ hist' = Append(hist, Entry(op, arg, cp, bad))
 LastCp == hist[Len(hist)].cp
 AllPartnered(s) == \A r \in 1..NR(s) : Partners(s.rv, r) # {}
 
@@ -76,34 +77,37 @@ MovePairs(p) == [n \in 1..Len(pairs) |-> <<NewIndex(p, pairs[n][1]), NewIndex(p,
 DoB2I(which, bw) ==
    /\ Room /\ which \in ACTS /\ sys.nw % 2 = 0
    /\ \E new \in {IF which = "b2i" THEN SpinBlock2Interlace(sys, bw) ELSE SpinInterlace2Block(sys, bw)} :
+        \E cp \in {Spectra(new, KS)} :
         LET toInterlace == (which = "b2i") # bw
             p == B2IMapping(sys.nw, ~toInterlace)
             L == [ labels |-> LabelsLaw(sys, new, toInterlace),
                    inverse |-> (IF which = "b2i" THEN SpinInterlace2Block(new, bw) ELSE SpinBlock2Interlace(new, bw)) = sys,
                    backward_inverse |-> (IF which = "b2i" THEN SpinBlock2Interlace(new, ~bw) ELSE SpinInterlace2Block(new, ~bw)) = sys,
-                   spectrum |-> Spectra(new, KS) = LastCp,
+                   spectrum |-> cp = LastCp,
                    shifts |-> ShiftsFollow(sys) => ShiftsFollow(new),
                    rlist |-> new.rv = sys.rv ]
-        IN Step(which, Bool(bw), new, MovePairs(p), Failed(L))
+        IN Step(which, Bool(bw), new, MovePairs(p), cp, Failed(L))
 (* reorder(reversed order): covered by C05, here for the compositions *)
 Reversal(n) == [a \in 1..n |-> n + 1 - a]
 DoReorder ==
    /\ Room /\ "reorder" \in ACTS /\ sys.nw > 1
    /\ \E new \in {Reorder(sys, Reversal(sys.nw))} :
-        LET L == [ involution |-> Reorder(new, Reversal(sys.nw)) = sys, spectrum |-> Spectra(new, KS) = LastCp,
+        \E cp \in {Spectra(new, KS)} :
+        LET L == [ involution |-> Reorder(new, Reversal(sys.nw)) = sys, spectrum |-> cp = LastCp,
                    shifts |-> ShiftsFollow(sys) => ShiftsFollow(new) ]
-        IN Step("reorder", "rev", new, MovePairs(Reversal(sys.nw)), Failed(L))
+        IN Step("reorder", "rev", new, MovePairs(Reversal(sys.nw)), cp, Failed(L))
 DoDoubleSpin ==
    /\ Room /\ "double_spin" \in ACTS /\ sys.nw <= 3 /\ "SS" \notin Keys(sys) /\ Has(sys.rv, Z3)
    /\ \E res \in {DoubleSpin(sys)} :
+        \E cp \in {Spectra(res.sys, KS)} :
         LET new == res.sys
             pr == InterlacedPairs(new.nw)
             r0 == FirstAt(new.rv, Z3)
             L == [ ok |-> res.err = "", size |-> new.nw = 2 * sys.nw, shifts |-> ShiftsFollow(sys) => ShiftsFollow(new),
                    pauli |-> PauliAlgebra([c \in 1..3 |-> SpinMat(new.mats["SS"], r0, new.nw, c)], new.nw, pr),
                    only_r0 |-> SSOnlyAtR0(new),
-                   spectrum |-> \A n \in 1..Len(KS) : Spectra(new, KS)[n] = PolyMul(LastCp[n], LastCp[n]) ]
-        IN Step("double_spin", "", new, pr, Failed(L))
+                   spectrum |-> \A n \in 1..Len(KS) : cp[n] = PolyMul(LastCp[n], LastCp[n]) ]
+        IN Step("double_spin", "", new, pr, cp, Failed(L))
 PairsOf(kind, nw) ==
    CASE kind = "interlaced" -> InterlacedPairs(nw)
      [] kind = "block" -> [n \in 1..(nw \div 2) |-> <<n - 1, n - 1 + (nw \div 2)>>]
@@ -111,6 +115,7 @@ PairsOf(kind, nw) ==
 DoSpinPairs(kind) ==
    /\ Room /\ "spin_pairs" \in ACTS /\ sys.nw % 2 = 0 /\ Has(sys.rv, Z3)
    /\ \E res \in {IF kind = "interlaced" THEN SetSpinInterlaced(sys) ELSE SetSpinPairs(sys, PairsOf(kind, sys.nw))} :
+        \E cp \in {Spectra(res.sys, KS)} :
         LET new == res.sys
             pr == PairsOf(kind, sys.nw)
             r0 == FirstAt(new.rv, Z3)
@@ -122,13 +127,14 @@ DoSpinPairs(kind) ==
                    (* pairing the block-ordered functions and interlacing = interlacing and pairing neighbours *)
                    commutes_with_b2i |-> kind = "block" =>
                         SpinBlock2Interlace(new, FALSE) = SetSpinPairs(SpinBlock2Interlace(sys, FALSE), InterlacedPairs(sys.nw)).sys ]
-        IN Step("spin_pairs", kind, new, pr, Failed(L))
+        IN Step("spin_pairs", kind, new, pr, cp, Failed(L))
 Axis(id) == CASE id = "z" -> <<0, 0, 1>> [] id = "x2" -> <<2, 0, 0>> [] id = "my3" -> <<0, -3, 0>>
 UnitOf(ax) == [c \in 1..3 |-> IF ax[c] > 0 THEN 1 ELSE IF ax[c] < 0 THEN -1 ELSE 0]       \* axes along a coordinate axis only
 AltSpins(nw) == [a \in 1..nw |-> IF a % 2 = 1 THEN 1 ELSE -1]
 DoSpinEigen(ax) ==
    /\ Room /\ "spin_eigen" \in ACTS /\ Has(sys.rv, Z3)
    /\ \E res \in {SetSpinEigenstates(sys, AltSpins(sys.nw), UnitOf(Axis(ax)), TRUE)} :
+        \E cp \in {Spectra(res.sys, KS)} :
         LET new == res.sys
             r0 == FirstAt(new.rv, Z3)
             u == UnitOf(Axis(ax))
@@ -138,7 +144,7 @@ DoSpinEigen(ax) ==
                    hermitian |-> HermitianKey(new, "SS"),
                    refused_without_reset |-> "SS" \in Keys(sys) => SetSpinEigenstates(sys, AltSpins(sys.nw), u, FALSE).err = "RuntimeError",
                    ham_untouched |-> new.mats["Ham"] = sys.mats["Ham"] ]
-        IN Step("spin_eigen", ax, new, <<>>, Failed(L))
+        IN Step("spin_eigen", ax, new, <<>>, cp, Failed(L))
 (* thresholds: key -> T2 (|x| >= min_value <=> 2 |x|^2 >= T2) *)
 MinValues(id) == CASE id = "h1" -> [k \in {"Ham"} |-> 1]            \* every non-zero element
                    [] id = "h3" -> [k \in {"Ham"} |-> 3]            \* |x|^2 >= 2
@@ -148,30 +154,34 @@ DoSparse(id) ==
    /\ Room /\ "sparse" \in ACTS /\ DOMAIN MinValues(id) \subseteq Keys(sys) /\ NoDup(sys.rv)
    /\ \E new \in {SparseRoundTrip(sys, MinValues(id))} :
         /\ "Ham" \in Keys(new)                                       \* something of the Hamiltonian survives
-        /\ LET mv == MinValues(id)
+        /\ \E cp \in {Spectra(new, KS)} :
+           LET mv == MinValues(id)
                L == [ no_tie |-> NoTie(sys, mv),
                       round_trip |-> LawSparse(sys, new, mv),
-                      idempotent |-> GetSparse(new, mv) = GetSparse(sys, mv),
-                      spectrum |-> id = "h1" => Spectra(new, KS) = LastCp ]
-           IN Step("sparse", id, new, IF "SS" \in Keys(new) THEN pairs ELSE <<>>, Failed(L))
+                      idempotent |-> LET mv2 == [k \in DOMAIN mv \cap Keys(new) |-> mv[k]] IN          \* (a matrix of which nothing survived is not set)
+                                     GetSparse(new, mv2).matrices = [k \in DOMAIN mv2 |-> GetSparse(sys, mv).matrices[k]],
+                      spectrum |-> id = "h1" => cp = LastCp ]
+           IN Step("sparse", id, new, IF "SS" \in Keys(new) THEN pairs ELSE <<>>, cp, Failed(L))
 (* _XX_R, rvec = rvec.exclude_zeros(_XX_R, tolerance) (the last step of do_ws_dist) *)
 DoExcludeZeros(T2) ==
    /\ Room /\ "exclude_zeros" \in ACTS
    /\ \E res \in {RvExcludeZeros(sys.rv, sys.mats, T2)} :
         /\ Len(res.rv) >= 1
-        /\ LET new == [sys EXCEPT !.rv = res.rv, !.mats = res.mats]
+        /\ \E cp \in {Spectra([sys EXCEPT !.rv = res.rv, !.mats = res.mats], KS)} :
+           LET new == [sys EXCEPT !.rv = res.rv, !.mats = res.mats]
                E == ExcludeLaws(sys.rv, sys.mats, new.rv, new.mats, T2)
                L == [ nothing_lost |-> E.nothing_lost, no_zero_left |-> E.no_zero_left, values |-> E.values, no_dup |-> E.no_dup,
                       order_kept |-> OrderKept(new.rv, sys.rv),
                       idempotent |-> RvExcludeZeros(new.rv, new.mats, T2) = [rv |-> new.rv, mats |-> new.mats],
-                      spectrum |-> T2 = 0 => Spectra(new, KS) = LastCp,
+                      spectrum |-> T2 = 0 => cp = LastCp,
                       empty_dict |-> RvExcludeZeros(sys.rv, <<>>, T2).rv = sys.rv ]
-           IN Step("exclude_zeros", ToString(T2), new, pairs, Failed(L))
+           IN Step("exclude_zeros", ToString(T2), new, pairs, cp, Failed(L))
 (* X := conj_XX_R(X) for every matrix (set_R_mat(key, ..., reset=True)) *)
 ConjPoly(p) == [j \in 1..Len(p) |-> GConj(p[j])]
 DoConj ==
    /\ Room /\ "conj" \in ACTS /\ NoDup(sys.rv)
    /\ \E new \in {[sys EXCEPT !.mats = [k \in Keys(sys) |-> RvConjXXR(sys.rv, sys.mats[k], sys.nw, NComp(k))]]} :
+        \E cp \in {Spectra(new, KS)} :
         LET rr == RvReverseR(sys.rv)
             twice == [k \in Keys(sys) |-> RvConjXXR(new.rv, new.mats[k], new.nw, NComp(k))]
             L == [ reverse_valid |-> rr.err = "" /\ ReverseRValid(sys.rv, rr.lstR, rr.lstmR),
@@ -180,8 +190,8 @@ DoConj ==
                                      twice[k][r] = IF Partners(sys.rv, r) # {} THEN sys.mats[k][r] ELSE MatZeroE(sys.nw, NComp(k)),
                    hermitian_fixed |-> \A k \in Keys(sys) : HermitianKey(sys, k) => new.mats[k] = sys.mats[k],
                    fixed_is_hermitian |-> \A k \in Keys(sys) : (AllPartnered(sys) /\ new.mats[k] = sys.mats[k]) => HermitianKey(sys, k),
-                   spectrum |-> AllPartnered(sys) => Spectra(new, KS) = [n \in 1..Len(KS) |-> ConjPoly(LastCp[n])] ]
-        IN Step("conj", "", new, pairs, Failed(L))
+                   spectrum |-> AllPartnered(sys) => cp = [n \in 1..Len(KS) |-> ConjPoly(LastCp[n])] ]
+        IN Step("conj", "", new, pairs, cp, Failed(L))
 Next == \/ \E w \in {"b2i", "i2b"} : \E bw \in BOOLEAN : DoB2I(w, bw)
         \/ DoReorder \/ DoDoubleSpin \/ DoConj
         \/ \E kind \in {"interlaced", "block", "partial"} : DoSpinPairs(kind)
